@@ -585,14 +585,47 @@ func (l *connectListener) Close() error {
 	return l.Listener.Close()
 }
 
+// listenLoopback listens on a loopback port OUTSIDE the kernel's ephemeral range (32768-60999). A port handed out by bind(0) may
+// just have been released by the server of another process on this machine whose clients keep reconnecting to it (seen: the
+// `PRI * HTTP/2.0` preface of a foreign HTTP/2 client recorded as a third request of a two-entry case); nobody reconnects to a
+// port that bind(0) never hands out. The port number never shows in an observation.
+var (
+	portMu  sync.Mutex
+	portRnd = rand.New(rand.NewSource(time.Now().UnixNano() ^ int64(os.Getpid())<<20))
+)
+
+func listenLoopback(v6 bool) (net.Listener, error) {
+	network, host := "tcp4", "127.0.0.1"
+	if v6 {
+		network, host = "tcp6", "::1"
+	}
+	var lastErr error
+	for i := 0; i < 200; i++ {
+		portMu.Lock()
+		port := 10240 + portRnd.Intn(32000-10240)
+		portMu.Unlock()
+		l, err := net.Listen(network, net.JoinHostPort(host, strconv.Itoa(port)))
+		if err == nil {
+			return l, nil
+		}
+		lastErr = err
+	}
+	return nil, lastErr
+}
+
 func newTarget(c caseIn) (*target, error) {
 	t := &target{}
 	useTLS, v6 := c.srv == "tls", c.tgt == "::1"
 	rspN := 0
 	if c.rsp == "redir" {
-		t.decoy = httptest.NewServer(http.HandlerFunc(func(w http.ResponseWriter, r *http.Request) {
+		dl, err := listenLoopback(false)
+		if err != nil {
+			return nil, err
+		}
+		t.decoy = &httptest.Server{Listener: dl, Config: &http.Server{Handler: http.HandlerFunc(func(w http.ResponseWriter, r *http.Request) {
 			t.decoyN.Add(1)
-		}))
+		})}}
+		t.decoy.Start()
 	} else {
 		rspN, _ = strconv.Atoi(c.rsp)
 	}
@@ -620,15 +653,14 @@ func newTarget(c caseIn) (*target, error) {
 		}
 		_, _ = w.Write(rspBody) // refused by net/http for the statuses that carry no body
 	})
-	srv := httptest.NewUnstartedServer(h)
-	if v6 {
-		l, err := net.Listen("tcp6", "[::1]:0")
-		if err != nil {
-			return nil, err
+	l, err := listenLoopback(v6)
+	if err != nil {
+		if t.decoy != nil {
+			t.decoy.Close()
 		}
-		_ = srv.Listener.Close()
-		srv.Listener = l
+		return nil, err
 	}
+	srv := &httptest.Server{Listener: l, Config: &http.Server{Handler: h}}
 	if c.gun == "connect" {
 		cl := &connectListener{Listener: srv.Listener, ch: make(chan net.Conn), done: make(chan struct{}), t: t}
 		go cl.loop()
